@@ -6,7 +6,7 @@ import props as P
 ids = ["C%02d" % i for i in range(1, 21)]
 checks = []
 for pid in ids:
-    if pid not in P.PROPS: continue
+    if pid not in P.PROPS or not P.PROPS[pid].get("contracts"): continue
     c = P.PROPS[pid]
     checks.append({
         "property_id": pid,
@@ -19,7 +19,7 @@ for pid in ids:
         "level_note": c.get("level_note", "Assumed: " + "; ".join(P.ENCODING_ASSUMPTIONS[:3]) + "; assumed contracts on callees listed in the evidence trusted_base."),
         "technique": c.get("technique", "contract-based deductive verification (sidecar contracts on the real functions, VCs generated from the AST, discharged by z3/cvc5)"),
     })
-na = [{"property_id": pid, "reason": P.NOT_APPLICABLE.get(pid, "check not built yet in this session; not claimed")} for pid in ids if pid not in P.PROPS]
+na = [{"property_id": pid, "reason": P.NOT_APPLICABLE.get(pid, "check not built yet in this session; not claimed")} for pid in ids if pid not in P.PROPS or not P.PROPS[pid].get("contracts")]
 doc = {"version": 1, "setup_cmd": "./setup.sh",
        "hooks": {"guard": "SHEXER_VERIF", "enable": "no hooks: contracts are sidecar files under /verif/contracts, run-time monitors wrap functions in the checker's own process",
                  "baseline_off_cmd": "cd /repo && /venv/bin/python -m pytest -ra -q -p no:cacheprovider --timeout=900 --continue-on-collection-errors",
